@@ -134,9 +134,20 @@ def main():
             meta = json.load(open(os.path.join(seed, "meta.json")))
         except Exception:
             pass
-        meta["confirmed_by_seedcheck"] = {k: res.get(k) for k in ("applies", "builds", "demo_without_patch", "demo_with_patch", "pkg_tests", "root_suite")}
-        meta["checks_run"] = res["checks"]
-        meta["detected"] = res["detected"]
+        old = {}
+        try:
+            old = json.load(open(os.path.join(dst, "meta.json")))
+        except Exception:
+            pass
+        conf = dict(old.get("confirmed_by_seedcheck") or {})
+        for k in ("applies", "builds", "demo_without_patch", "demo_with_patch", "pkg_tests", "root_suite"):
+            if res.get(k) is not None:
+                conf[k] = res.get(k)
+        meta["confirmed_by_seedcheck"] = conf
+        checks = dict(old.get("checks_run") or {})
+        checks.update(res["checks"])  # the latest run of each check wins
+        meta["checks_run"] = checks
+        meta["detected"] = any(v["rc"] == 1 for v in checks.values())
         json.dump(meta, open(os.path.join(dst, "meta.json"), "w"), indent=1)
     return 0
 
